@@ -575,8 +575,8 @@ class Fn:
                 if len(tb) != 1:
                     self.fail("statements before an early return")
                 return self.cond(c, env, lambda cc: f"if {cc} then\n{k(env, None)}\nelse\n{nxt(env)}")
-            vs = sorted(assigned(tb) | (assigned(eb) if eb else set()))
-            vs = [v for v in vs if v in env]
+            asg = assigned(tb) | (assigned(eb) if eb else set())
+            vs = [v for v in env if v in asg]      # declaration order: renaming a variable does not reorder the state
             st = self.fresh("st")
 
             def pack(env2):
@@ -633,7 +633,8 @@ class Fn:
 
     def loop_while(self, s, env, nxt):
         c, body = s[1], s[2]
-        vs = [v for v in sorted(assigned(body)) if v in env]
+        asg = assigned(body)
+        vs = [v for v in env if v in asg]      # declaration order: renaming a variable does not reorder the state
         st = self.fresh("st")
         envb, letsb = self.unpack(vs, st, env)
         pack = lambda e2: ("some (" + ", ".join(e2[v][1] for v in vs) + ")")  # noqa: E731
@@ -678,7 +679,8 @@ class Fn:
         if it[0] != "range" or it[1] is None or it[2] is None or pat[0] != "name":
             self.fail("`for` over something other than a range")
         lo, hi, incl = it[1], it[2], it[3]
-        vs = [v for v in sorted(assigned(body)) if v in env]
+        asg = assigned(body)
+        vs = [v for v in env if v in asg]      # declaration order: renaming a variable does not reorder the state
         st = self.fresh("st")
         i = self.fresh(pat[1])
         envb, letsb = self.unpack(vs, st, env)
